@@ -605,12 +605,31 @@ class _Run:
             elif va == vb:
                 env[k] = va
             else:
-                env[k] = T.mk_phi([(c, va), (T.mk_not(c), vb)])
+                env[k] = self._lazy_init(k, T.mk_phi([(c, va), (T.mk_not(c), vb)]))
         g = st.guard
         if a.guard != T.mk_and([st.guard, c]) or b.guard != T.mk_and([st.guard, T.mk_not(c)]):
             # a nested branch left (raise / return): what continues is the union of what reaches the two ends
             g = T.mk_or([a.guard, b.guard])
         return State(env, g, None)
+
+    def _lazy_init(self, name, v):
+        """`x = None` before a loop and `if x is None: x = E` as the only assignment to x inside it, E not depending on
+        anything the loop changes: after the `if`, x is E in every iteration (computed now or in an earlier one)."""
+        if tag(v) != 'phi' or len(v[1]) != 2:
+            return v
+        for (g1, e1), (g2, e2) in (tuple(v[1]), tuple(v[1][::-1])):
+            if tag(e2) != 'lphi' or e2[2] != name or g1 != ('cmp', 'is', e2, T.NONE) or g2 != T.mk_not(g1):
+                continue
+            loop = self.ex.loops.get(e2[1])
+            if loop is None or loop.init.get(name) != T.NONE or e2[1] not in self.loopstack:
+                continue
+            if T.contains(e1, lambda x: tag(x) in ('lv', 'lphi', 'loopres') and x[1] == e2[1]):
+                continue
+            stores = [n for b in loop.node.body for n in ast.walk(b)
+                      if isinstance(n, ast.Name) and n.id == name and isinstance(n.ctx, (ast.Store, ast.Del))]
+            if len(stores) == 1:
+                return e1
+        return v
 
     def _pending_exits(self, *states) -> None:
         pass
@@ -701,7 +720,7 @@ class _Run:
                 if nm in init and val == ('lphi', lid, nm):
                     out.env[nm] = init[nm]
                     continue
-                lc = self._loop_as_comprehension(s, loop, nm, init.get(nm), val) if kind == 'for' else None
+                lc = self._loop_as_comprehension(s, loop, nm, init.get(nm), val, end.env, assigned) if kind == 'for' else None
                 if lc is not None:
                     loop.as_lc[nm] = lc
                     out.env[nm] = lc
@@ -711,12 +730,25 @@ class _Run:
             out = self.block(s.orelse, out)
         return out
 
-    def _loop_as_comprehension(self, s, loop, nm, initv, val):
+    def _loop_as_comprehension(self, s, loop, nm, initv, val, end_env=None, assigned=()):
         """An accumulator that starts as [] and to which every iteration appends at most one element computed from
         the loop variable alone is the list comprehension over the same iterable (so that unrolling a comprehension
         into a loop, or the reverse, does not change what the rules see)."""
-        if initv is None or tag(initv) != 'list' or initv[1]:
+        summing = initv is not None and T.is_const(initv) and initv[1] == 0 and not isinstance(initv[1], bool)
+        if initv is None or not (summing or (tag(initv) == 'list' and not initv[1])):
             return None
+        if summing:
+            # only a loop that does nothing but add up: no other variable carried from one iteration to the next, nothing
+            # stored or modified in its body (a counter kept next to other bookkeeping stays the loop it is)
+            lid0 = loop.id
+            for other in assigned:
+                v2 = (end_env or {}).get(other)
+                if other != nm and v2 is not None and T.contains(v2, lambda x: tag(x) == 'lphi' and x[1] == lid0):
+                    return None
+            own = ('lphi', lid0, nm)
+            if any(e.kind in ('store', 'aug', 'mutcall', 'del') and lid0 in e.loops and
+                   not (e.kind == 'aug' and own in (e.target, e.base)) for e in self.events):
+                return None
         # (`continue` ends an iteration early: the states that leave through it are merged into the end of the body)
         stoppers = (ast.Break, ast.Return) if nm == YIELDED else (ast.Break, ast.Return, ast.Yield)
         if any(isinstance(n, stoppers) for b in s.body for n in ast.walk(b)):
@@ -727,6 +759,11 @@ class _Run:
         lphi = ('lphi', lid, nm)
 
         def appended(v):
+            if summing:
+                # n = 0; for x in xs: n += f(x)   is   n = sum([f(x) for x in xs])
+                if tag(v) == 'bin' and v[1] == '+' and lphi in (v[2], v[3]):
+                    return v[3] if v[2] == lphi else v[2]
+                return None
             if tag(v) == 'mcall' and v[1] == lphi and v[2] == 'append' and len(v[3]) == 1:
                 return v[3][0]
             if tag(v) == 'bin' and v[1] == '+' and v[2] == lphi and tag(v[3]) == 'list' and len(v[3][1]) == 1:
@@ -759,7 +796,8 @@ class _Run:
             if isinstance(s.target, (ast.Tuple, ast.List)):
                 for i in range(len(s.target.elts)):
                     mapping[('lv', lid, f'elem{i}')] = ('cv', d, f'0.{i}')
-        return ('lc', 'list', T.subst(elem, mapping), ((it, tuple(T.subst(c, mapping) for c in conds)),))
+        lc = ('lc', 'list', T.subst(elem, mapping), ((it, tuple(T.subst(c, mapping) for c in conds)),))
+        return ('call', ('g', 'numpy.sum'), (lc,), ()) if summing else lc
 
     def _fuse_iteration(self, it, lid):
         """for x in [f(y) for y in ys if c(y)] / enumerate(that) / zip(ys, [f(y) for y in ys], ...) all visit the
@@ -1383,6 +1421,16 @@ class _Run:
             return ('scan', args[0], args[1] if len(args) == 2 else dict(kws)['func'], dict(kws)['initial'])
         if tg == 'g' and fn[1] in ('builtins.list', 'builtins.tuple') and len(args) == 1 and not kws and tag(args[0]) == 'scan':
             return args[0]
+        if tg == 'g' and fn[1] == 'pandas.Series' and len(args) == 1 and T.is_const(args[0]) \
+                and isinstance(args[0][1], (int, float)) and not isinstance(args[0][1], bool) \
+                and set(dict(kws)) <= {'index', 'dtype', 'name'} and tag(dict(kws).get('index')) == 'index':
+            # pd.Series(c, index=frame.index[, dtype=int]): the constant, one per row of that frame - as a column value it
+            # is what `frame[col] = c` stores
+            dt = dict(kws).get('dtype')
+            if dt is None or dt in (('g', 'builtins.int'), C('int'), C('int64')) and isinstance(args[0][1], int):
+                return args[0]
+            if dt in (('g', 'builtins.float'), C('float'), C('float64')):
+                return C(float(args[0][1]))
         # methods of a NamedTuple record
         if tg == 'attr' and tag(fn[1]) == 'record' and fn[2] == '_asdict' and not args and not kws:
             return ('dict', tuple((C(nm), v) for nm, v in fn[1][2]))
@@ -1525,6 +1573,8 @@ class _Run:
         if tg in ('attr', 'col', 'vals', 'index', 'columns'):
             # method call on a value
             recv, name = (fn[1], fn[2]) if tg in ('attr', 'col') else (fn, None)
+            if tg == 'vals' and tag(fn[1]) in ('lc', 'dict') and not args and not kws:
+                recv, name = fn[1], 'values'            # .values() of a dictionary, not the array of a Series
             if name is None:
                 t = ('call', fn, args, kws)
             else:
@@ -1564,6 +1614,12 @@ class _Run:
         return ('lam', len(a.args), summ.ret)
 
     def _mcall(self, recv, name, args, kws):
+        if tag(recv) == 'lc' and recv[1] == 'dict' and name in ('values', 'keys', 'items') and not args and not kws \
+                and tag(recv[2]) == 'tuple' and len(recv[2][1]) == 2:
+            # {k(x): v(x) for x in xs}.values() is [v(x) for x in xs] (insertion order; keys assumed distinct, as when
+            # xs are the distinct names / ids the dictionary is keyed by)
+            k, v = recv[2][1]
+            return ('lc', 'list', {'values': v, 'keys': k, 'items': recv[2]}[name], recv[3])
         if T.is_const(recv) and isinstance(recv[1], str) and all(T.is_const(a) for a in args) and \
                 all(k is not None and T.is_const(v) for k, v in kws) and name in _STR_FOLD:
             # a method of a string literal on literal arguments (a file-name template filled in, ...)
